@@ -35,6 +35,12 @@ CHECKS = {
  "C10": (True, "proptest choice-stream PBT: polynomials from prescribed roots (complex double-double expansion) and random coefficients; residual oracle in complex double-double, root matching, bit-exact driver replica as known-finding signature; libFuzzer(thorough)",
          "Hundreds of thousands (thorough: millions) of degree 0..12 polynomials per run over f64/Cmplx, both refinement settings, zero/repeated/clustered roots and vanishing coefficients; every returned value must be finite and a root to a stated backward-error tolerance, well-separated prescribed roots are matched one-to-one; two documented known findings (Laguerre non-convergence, unpolished deflation) are excluded by input-level signature.",
          "Trusted: complex double-double Horner evaluation; tolerances calibrated with margin; the replica only narrows what a known finding may excuse (its output must be bit-identical to the library's).", "5/C10"),
+ "C11": (True, "proptest choice-stream PBT over exact data: coefficient-list reference model, evaluation homomorphism, linearity/product-rule identities; libFuzzer(thorough)",
+         "Hundreds of thousands of polynomial pairs (lengths 0..9 incl. the empty polynomial) over three exact-data element types; every ring operation, eval and derivative form compared exactly with the model and with each other.",
+         "Trusted: the coefficient-list model; exactness of small-integer float arithmetic.", "5/C11"),
+ "C12": (True, "proptest choice-stream PBT: reconstruction oracle u = q v + r (exact over rationals, double-double with stated tolerance over floats), degree condition, error half on zero/empty divisors; libFuzzer(thorough)",
+         "Hundreds of thousands of dividend/divisor pairs over rationals, integer-valued and general floats and Complex<f64>; success, reconstruction, degree of remainder and the Err contract are checked on each.",
+         "Trusted: double-double reconstruction; tolerance 256 eps per coefficient relative to the absolute term sum.", "5/C12"),
 }
 NOT_YET = "check not built yet in this revision of /verif (work in progress); the design for it is in DESIGN.md section 5"
 
